@@ -2,6 +2,8 @@ import OV.Model.C18Builder
 import OV.Model.C18NN
 import OV.Lemmas.C18NN
 import OV.Lemmas.C18Builder
+import OV.Lemmas.C18WF
+import OV.Lemmas.C18Sem
 /-!
 # C18 — GraphBuilder / nn.Module graphs compute the trace; parameters named like PyTorch
 
@@ -167,25 +169,23 @@ theorem initializer_names_full_refuted_shared :
 
 /-! ## Part A — names generated by `GraphBuilder` -/
 
-/-- **Names are unique** (after commit e9794aa — no `NoSubgraphs` hypothesis any more).  In every trace —
-operator calls, function calls, literals, explicit names, module scopes and **arbitrarily nested
-`subgraph` constructions** — every automatically generated value name is made from a *different*
-(scope, op, node-count, output-index) tuple: `_adapt_outputs` reads `_node_count()` = the nodes of the
-root graph and of all subgraphs of the builder tree, every call appends exactly one node to one of them,
-opening and closing a subgraph only moves graphs between "current / enclosing / finished", so the count
-strictly increases along the trace.
-Still `_partial`: (i) `call_inline` is excluded (`simpleItem`): its names are `prefix + body name`, another
-family, and can collide (`names_unique_noinline_needed`, D20c); (ii) the statement is about the tuples, not
-their rendering `v_{scope}.{op}_{count}[_{i}]`, which is not injective
-(`names_unique_refuted_opname`, D20f). -/
-theorem names_unique_partial (fns : List Fn) (tr : List Item) (h : ∀ it ∈ tr, simpleItem it = true) :
+/-- **Names are unique** (after commits e9794aa and e7b46e0 — no hypothesis on the trace any more).  In
+*every* trace — operator calls, function calls, `call_inline`, literals, explicit names, module scopes and
+arbitrarily nested `subgraph` constructions — every automatically generated value name is made from a
+*different* (scope, op, node-count, output-index) tuple: `_adapt_outputs` reads `_node_count()` = the nodes of
+the root graph and of all subgraphs of the builder tree; every call appends one node (an inlining: all clones)
+to one of them; opening and closing a subgraph only moves graphs between "current / enclosing / finished"; so
+the count strictly increases along the trace.
+Still `_partial` in one respect: the statement is about the tuples, not their rendering
+`v_{scope}.{op}_{count}[_{i}]`, which is not injective (`names_unique_refuted_opname`, D20f — open). -/
+theorem names_unique_partial (fns : List Fn) (tr : List Item) :
     ((build fns tr).vkeys.filter isAutoKey).Nodup :=
-  (Inv.foldl fns tr St.init h Inv.init).2
+  (Inv.foldl fns tr St.init Inv.init).2
 
 /-- …and each of those tuples carries a count below the final number of nodes of the whole builder tree. -/
-theorem auto_counts_bounded_partial (fns : List Fn) (tr : List Item) (h : ∀ it ∈ tr, simpleItem it = true) :
+theorem auto_counts_bounded (fns : List Fn) (tr : List Item) :
     ∀ k ∈ (build fns tr).vkeys, ∀ p o c i, k = VKey.auto p o c i → c < nodeCount true (build fns tr) :=
-  (Inv.foldl fns tr St.init h Inv.init).1
+  (Inv.foldl fns tr St.init Inv.init).1
 
 /-- D20a witness (regression case): main graph, `then` and `else` bodies each call `Add` first. -/
 def d20aTrace : List Item :=
@@ -228,21 +228,24 @@ example : (build [fAddMul] simpleTrace).valueNames =
     ["x", "const_1_f32", "v_blk.Add_0", "v_blk.Split_1_0", "v_blk.Split_1_1", "v_blk.Split_1_2",
      "out", "v_addmul_2_1"] := by decide
 
-/-- D20c: `call_inline` of a function returning its own input renames the caller's value in place. -/
+/-- D20c witness (regression case): `call_inline` of a function returning its own input. -/
 def fIdent : Fn := ⟨"ident", "c18", "", ["a0"], [], ["a0"]⟩
 def d20cTrace : List Item :=
   [.input "x", .op "Relu" [.ref 0] (.named ["x"]) none [], .inline 0 [.ref 0] none ""]
 
-/-- with `call_inline` allowed, rendered value names are not unique even without subgraphs. -/
-theorem names_unique_noinline_needed :
+/-- **Before commit e7b46e0** `call_inline` renamed the caller's value in place: rendered value names were
+not unique even without subgraphs (`x` became `v_x`, colliding with the explicit output `x` → `v_x`). -/
+theorem names_unique_inline_prefix_refuted :
     ¬ (∀ (fns : List Fn) (tr : List Item), (∀ it ∈ tr, isSub it = false) →
-        (build fns tr).valueNames.Nodup) := by
+        (buildPrefix fns tr).valueNames.Nodup) := by
   intro h
   have := h [fIdent] d20cTrace (by decide)
   revert this
   decide
 
-example : (build [fIdent] d20cTrace).valueNames = ["v_x", "v_x"] := by decide
+example : (buildPrefix [fIdent] d20cTrace).valueNames = ["v_x", "v_x"] := by decide
+/-- on the current code the pass-through output keeps its name. -/
+example : (build [fIdent] d20cTrace).valueNames = ["x", "v_x"] := by decide
 
 /-- D20f: the rendering is not injective — `f` (4 outputs, node 1) and `f_1` (1 output, node 3) both give
 `v_f_1_3`, in a trace of plain calls. -/
@@ -259,5 +262,126 @@ theorem names_unique_refuted_opname :
   have := h [fFour, fOne] d20fTrace (by decide)
   revert this
   decide
+
+/-! ## Part C — the built graph is well-formed and computes the trace; inlining = calling -/
+
+/-- **Well-formedness** (`build_wf`).  For *every* trace (operator calls, literals, function calls,
+`call_inline`, scopes, arbitrarily nested subgraphs) and every graph of the builder tree — the root, the
+graphs still open and every finished subgraph, at every nesting depth — every input `i` of every node is a
+*defined* value (a root initializer, an input of some graph, or an output of some node) and is either a root
+initializer or was created strictly before every output of that node.  Together with single definition (each
+value id is placed at exactly one site) this is definition-before-use.
+`_partial` in one respect: ONNX *scoping* is not stated — that a value defined inside a finished subgraph is
+not used outside it is the caller's obligation (Python lets a trace function leak an inner value). -/
+theorem build_wf_partial (fns : List Fn) (tr : List Item) :
+    ∀ f ∈ (build fns tr).frames, ∀ n ∈ f.nodes, ∀ i, some i ∈ n.ins →
+      Defined (build fns tr) i ∧ (i ∈ (build fns tr).inits ∨ ∀ o ∈ n.outs, i < o) := by
+  have hb : Bnd (build fns tr) := Bnd.foldlAll true fns tr St.init Bnd.init
+  intro f hf n hn i hi
+  obtain ⟨h1, h2⟩ := (hb.nodes f hf n hn).2 i hi
+  exact ⟨hb.defined i h1 (by simp), h2⟩
+
+/-- …and every value ever created is defined at a site (no dangling outputs, inputs or constants). -/
+theorem build_all_defined (fns : List Fn) (tr : List Item) :
+    ∀ i, i < (build fns tr).vnames.length → Defined (build fns tr) i :=
+  fun i hi => (Bnd.foldlAll true fns tr St.init Bnd.init).defined i hi (by simp)
+
+/-- **The graph computes the trace** (`build_computes_trace`).  For every subgraph-free, inline-free trace,
+every interpretation `S` of the operators as functions of their input values (A-op; function-call nodes are
+operators named by (domain, name, overload)), and every argument list: evaluating the root graph of
+`build tr` — initializers holding their literal's value, graph inputs the arguments, nodes in order — gives
+at every handle exactly the value the trace's own replay gives (operands = handles, literals, `None`).
+It holds for all trace lengths and all sharing of constants through the cache (a cache hit returns an
+initializer with the *same* value because the key is `(repr, dtype)`). -/
+theorem build_computes_trace_partial {α : Type} (S : OpSem α) (fns : List Fn) (args : List α) (tr : List Item)
+    (h : ∀ it ∈ tr, simItem it = true) :
+    (build fns tr).handles.map (fun o => o.bind (evalGraph S (build fns tr) args))
+      = (replay S fns args tr).henv :=
+  (sim_foldl S fns args true tr St.init ⟨[], 0⟩ h (Sim.init S args)).vals
+
+/-- **Inlining = calling, α-renaming** (`inline_eq_call`, functions without attributes).  The nodes
+`call_inline` makes from the body of `f` (`inlineClones`: formals ↦ actuals, every body value a fresh id,
+names prefixed), evaluated in *any* environment `e`, give at the function's outputs exactly the values of the
+body evaluated over its own names on the actuals' values (`evalBody` — what a call node denotes when the
+function symbol is expanded), and leave every earlier value untouched.  Hypotheses: the actuals exist
+(`< st.L`) and each body node's outputs are distinct names (SSA body). -/
+theorem inline_eq_call_partial {α : Type} (S : OpSem α) (total : Bool) (st : St) (f : Fn)
+    (actuals : List (Option Nat)) (e : Env α) (ha : ∀ i, some i ∈ actuals → i < st.L)
+    (hssa : ∀ n ∈ f.nodes, n.outs.Nodup) :
+    (f.outputs.map (vmapGet (inlineClones total st f actuals).2.1)).map
+        (fun o => o.bind (evalNodes S e (inlineClones total st f actuals).2.2))
+      = evalBody S f (actuals.map (fun a => a.bind e)) ∧
+    ∀ i, i < st.L → evalNodes S e (inlineClones total st f actuals).2.2 i = e i := by
+  obtain ⟨c1, c2, _⟩ := cloneNodes_sim S
+    (autoNodeName st.cur (nodeCount total st) f.name ++ "/") f.nodes st (f.formals.zip actuals) e
+    (bindFormals f.formals (actuals.map (fun a => a.bind e)))
+    (vmapGet_zip_bound f.formals actuals st.L ha) (rel_formals e f.formals actuals) hssa
+  refine ⟨?_, c2⟩
+  simp only [inlineClones, evalBody, List.map_map]
+  apply List.map_congr_left
+  intro x _
+  exact c1 x
+
+/-- `call_inline` really appends those clones (and nothing else) to the current graph and hands back the
+values the function's outputs are mapped to — on its success path (all operands are values, not too many,
+`_outputs` of the right length). -/
+theorem inline_appends_clones (total : Bool) (fns : List Fn) (st : St) (fi : Nat) (args : List Arg)
+    (outs : Option (List String)) (pfx : String) (f : Fn) (hf : fns[fi]? = some f)
+    (h1 : args.all isRef = true) (h2 : ¬ args.length > f.formals.length) (h3 : outsMismatch outs f = false) :
+    (doInline total fns st fi args outs pfx).cur.nodes = st.cur.nodes ++
+      (inlineClones total (if pfx = "" then st else pushScope st pfx) f
+        (resolveArgs (if pfx = "" then st else pushScope st pfx) args).2).2.2 ∧
+    (doInline total fns st fi args outs pfx).handles = st.handles ++ f.outputs.map (vmapGet
+      (inlineClones total (if pfx = "" then st else pushScope st pfx) f
+        (resolveArgs (if pfx = "" then st else pushScope st pfx) args).2).2.1) :=
+  doInline_appends total fns st fi args outs pfx f hf h1 h2 h3
+
+/-- Corollary: under an interpretation that gives the function symbol the meaning of its body, the values
+`call_inline` returns equal the values `call` returns. -/
+theorem inline_eq_call_values {α : Type} (S : OpSem α) (total : Bool) (st : St) (f : Fn)
+    (actuals : List (Option Nat)) (e : Env α) (ha : ∀ i, some i ∈ actuals → i < st.L)
+    (hssa : ∀ n ∈ f.nodes, n.outs.Nodup)
+    (hdef : takeN (S.op f.domain f.name f.overload (actuals.map (fun a => a.bind e))) f.outputs.length
+      = evalBody S f (actuals.map (fun a => a.bind e))) :
+    (f.outputs.map (vmapGet (inlineClones total st f actuals).2.1)).map
+        (fun o => o.bind (evalNodes S e (inlineClones total st f actuals).2.2))
+      = takeN (S.op f.domain f.name f.overload (actuals.map (fun a => a.bind e))) f.outputs.length := by
+  rw [hdef]
+  exact (inline_eq_call_partial S total st f actuals e ha hssa).1
+
+/-! ### non-vacuity -/
+
+/-- a concrete interpretation over `Int`. -/
+def intSem : OpSem Int where
+  op := fun _ t _ vs =>
+    match t, vs with
+    | "Add", [some a, some b] => [a + b]
+    | "Mul", [some a, some b] => [a * b]
+    | "Neg", [some a] => [-a]
+    | "addmul", [some a, some b] => [a + b, a * b]
+    | _, _ => []
+  lit := fun k => match k with
+    | .num r _ => if r = "3" then 3 else 0
+    | .ints _ _ => 0
+
+def semTrace : List Item :=
+  [.input "x", .input "y", .op "Add" [.ref 0, .lit (.num "3" 3000 "i64")] (.auto 1) none [],
+   .push "blk", .op "Mul" [.ref 2, .ref 1] (.named ["p"]) none [], .pop,
+   .op "Add" [.lit (.num "3" 3000 "i64"), .ref 3] (.auto 1) none [], .call 0 [.ref 4, .ref 0] none,
+   .output 6 (some "out")]
+
+example : ∀ it ∈ semTrace, simItem it = true := by decide
+example : (replay intSem [fAddMul] [5, 7] semTrace).henv =
+    [some 5, some 7, some 8, some 56, some 59, some 64, some 295] := by decide
+example : (build [fAddMul] semTrace).handles.map
+      (fun o => o.bind (evalGraph intSem (build [fAddMul] semTrace) [5, 7]))
+    = [some 5, some 7, some 8, some 56, some 59, some 64, some 295] := by decide
+
+/-- `inline_eq_call_partial` instance: inlining `addmul(x, y)` into a graph with inputs 0 ↦ 5, 1 ↦ 7. -/
+def twoInputs : St := build [] [.input "x", .input "y"]
+example : (inlineClones true twoInputs fAddMul [some 0, some 1]).2.2.map (fun n => (n.op, n.ins, n.outs))
+    = [("Add", [some 0, some 1], [2]), ("Mul", [some 0, some 1], [3])] := by decide
+example : evalBody intSem fAddMul [some 5, some 7] = [some 12, some 35] := by decide
+example : ∀ n ∈ fAddMul.nodes, n.outs.Nodup := by decide
 
 end OV.Props.C18
